@@ -60,7 +60,7 @@ def candidates(tier):
 
 def run(tier, seed):
     t0 = time.time()
-    gen = os.path.join(ROOT, "generated")
+    gen = os.environ.get("VERIF_GEN") or os.path.join(ROOT, "generated")
     os.makedirs(gen, exist_ok=True)
     res = {"bounded": True, "violations": [], "obligations": 0, "discharged": 0}
     # 1. verify + compile the oracle with Verus
